@@ -138,3 +138,19 @@ func (b *box) BadGoroutineInheritsNothing() {
 		b.n++
 	}()
 }
+
+func (b *box) goodLen() int {
+	b.mu.RLock()
+	defer b.mu.RUnlock()
+	return len(b.m)
+}
+
+// a pure wrapper is one section
+func (b *box) GoodWrapper() int { return b.goodLen() }
+
+func (b *box) BadStoreThenLen(k string) int {
+	b.mu.Lock()
+	b.m[k] = 1
+	b.mu.Unlock()
+	return b.goodLen()
+}
